@@ -78,7 +78,7 @@ pub struct QCase {
     pub size: usize,
     pub dither: bool,
     pub bg: Option<[u8; 4]>,
-    /// quantise a crop(1..-1, 1..-1) of the image surrounded by a poison border
+    /// quantise a crop of the image surrounded by a 12-pixel wide poison border
     pub crop: bool,
 }
 
@@ -129,14 +129,17 @@ impl QCase {
             Image::from(SurfaceOwned::new_with(Size::new(self.h, self.w), |p| rgba(px[p.row * w + p.col])))
         } else {
             let (h, w, px) = (self.h, self.w, &self.pixels);
-            let big = Image::from(SurfaceOwned::new_with(Size::new(h + 2, w + 2), |p| {
-                if p.row == 0 || p.col == 0 || p.row == h + 1 || p.col == w + 1 {
+            // a wide poison border: the parent buffer is far larger than the view (>= 625 pixels), so
+            // anything that looks at the backing buffer instead of the view is exposed
+            const B: usize = 12;
+            let big = Image::from(SurfaceOwned::new_with(Size::new(h + 2 * B, w + 2 * B), |p| {
+                if p.row < B || p.col < B || p.row >= h + B || p.col >= w + B {
                     rgba(POISON)
                 } else {
-                    rgba(px[(p.row - 1) * w + (p.col - 1)])
+                    rgba(px[(p.row - B) * w + (p.col - B)])
                 }
             }));
-            big.crop(1..-1, 1..-1)
+            big.crop(B as i64..-(B as i64), B as i64..-(B as i64))
         }
     }
     /// the pixel as the quantiser must see it: composited over the background when not opaque.
